@@ -143,9 +143,14 @@ def rational_quadratic_spline(
         c = -input_delta * (inputs - input_cumheights)
 
         discriminant = b.pow(2) - 4 * a * c
-        assert (discriminant >= 0).all()
+        # The discriminant is non-negative and the root lies in [0, 1] mathematically, but rounding
+        # (in float32 already for moderately non-uniform bins) can leave either a hair outside,
+        # which used to trip the assertion or make the log-derivative below NaN.
+        assert (discriminant >= -1e-4 * b.pow(2)).all()
+        discriminant = torch.clamp(discriminant, min=0)
 
         root = (2 * c) / (-b - torch.sqrt(discriminant))
+        root = torch.clamp(root, 0, 1)
         # root = (- b + torch.sqrt(discriminant)) / (2 * a)
         outputs = root * input_bin_widths + input_cumwidths
 
